@@ -4292,6 +4292,10 @@ class Macro:
             }[argspec.kind]
             if value.data not in allowed_types:
                 raise IllegalParseTree("Invalid argument type for argument " + argspec.name, value)
+            if not argspec.should_early_bind() and value.data == "identifier_const" and not parse_ctx._may_name_late_bound_value(argspec.kind, value.children[0].value):
+                # a bare name is only resolved where the body uses it; make sure it can denote a value of this kind at all, so that
+                # e.g. a hook passed as a match argument is diagnosed even when the body never mentions the argument
+                raise IllegalParseTree("Invalid argument type for argument " + argspec.name, value)
             if argspec.should_early_bind():
                 value = parse_ctx._lookup_named_entity(argspec.kind, value.children[0])
             else:
@@ -4440,6 +4444,18 @@ class ParseCtx:
                 }[context], from_tree)
 
             return storage[name]
+
+    def _may_name_late_bound_value(self, kind: MacroArgumentKind, name: str):
+        """
+        Can this bare name, passed as a match/expr macro argument, denote such a value: a match/expr argument of an enclosing macro, or
+        (for an expr) an output variable or an enum constant.
+        """
+
+        if any((MacroArgumentKind.EXPR, name) in entry for entry in self.bound_argument_stack):
+            return True
+        if kind == MacroArgumentKind.INTEXPR:
+            return name in self.state_object_spec or any(name in out.enum_values for out in self.state_object_spec.values())
+        return False
 
     def _parse_macro_arguments(self, args: lark.Tree):
         if args.data == "macro_arg_empty":
